@@ -6,7 +6,7 @@ import tempfile
 
 from hypothesis import strategies as st
 
-from vlib import cidlib, gen_fields, model_fields
+from vlib import gen_range, cidlib, gen_fields, model_fields
 from vlib.runner import norm_message
 
 import cutplace
@@ -270,11 +270,21 @@ def _shard(args):
 # -- hypothesis: random lengths, ranges and cells -------------------------------------------------
 @st.composite
 def random_cases(draw):
-    kind = draw(st.sampled_from(["delimited", "fixed", "excel", "ods"]))
+    kind = draw(st.sampled_from(["delimited", "delimited-de", "fixed", "excel", "ods"]))
     lo = draw(st.integers(33, 120))
     hi = draw(st.integers(lo, 126))
-    shape = draw(st.sampled_from(["none", "closed", "two", "open"]))
-    if shape == "none":
+    shape = draw(st.sampled_from(["none", "closed", "two", "open", "many", "many"]))
+    if shape == "many":
+        # 5-14 items in any order, limits spelled as numbers, hex or quoted characters; the blank stays allowed
+        drawn = draw(gen_range.int_range_cases(14, st.integers(33, 260), ("dec", "dec", "hex", "quoted")))
+        allowed_text, allowed = drawn["description"], [list(item) for item in drawn["items"]]
+        if not gen_range.member(allowed, 32):
+            position = draw(st.integers(0, len(allowed)))
+            parts = allowed_text.split(",")
+            parts.insert(position, draw(st.sampled_from(["32", '" "', "0x20"])))
+            allowed_text = ",".join(parts)
+            allowed.insert(position, [32, 32])
+    elif shape == "none":
         allowed_text, allowed = None, None
     elif shape == "closed":
         allowed_text, allowed = "32, %d...%d" % (lo, hi), [[32, 32], [lo, hi]]
@@ -283,12 +293,28 @@ def random_cases(draw):
     else:
         allowed_text, allowed = "32...%d" % hi, [[32, hi]]
     fmt = gen_fields.format_spec(kind, allowed=allowed, allowed_text=allowed_text)
-    type_name = draw(st.sampled_from(["Text", "Pattern", "RegEx", "Choice", "Integer"]))
+    type_name = draw(st.sampled_from(["Text", "Pattern", "RegEx", "Choice", "Integer", "Decimal", "Decimal", "DateTime"]))
     field = draw(gen_fields.FIELD_STRATEGIES[type_name]("guarded", fmt))
-    if type_name in ("Pattern", "RegEx", "Choice") and kind != "fixed":
-        field["length"], field["length_items"] = draw(gen_fields.length_decls())
+    if type_name in ("Pattern", "RegEx", "Choice", "Decimal", "DateTime") and kind != "fixed":
+        if draw(st.integers(0, 3)) == 0:
+            # many length items, not in ascending order
+            numbers = draw(st.lists(st.integers(1, 24), min_size=5, max_size=12, unique=True))
+            field["length"], field["length_items"] = ", ".join(str(n) for n in numbers), [[n, n] for n in numbers]
+        else:
+            field["length"], field["length_items"] = draw(gen_fields.length_decls(hi_max=12))
     cells = gen_fields.cells_for(draw, field, fmt, 4)
     cells += draw(st.lists(st.text("abc123 #~Zz", max_size=8), min_size=2, max_size=4))
+    if type_name == "Decimal" and fmt["thousands"]:
+        # nothing but separators, and grouped numbers of several lengths
+        ts = fmt["thousands"]
+        cells += [ts, ts + ts, "1" + ts + "234", "1" + ts + "234" + ts + "567", "12" + ts + "345" + ts + "678"]
+    if allowed:
+        # characters next to the limits of every item
+        edges = sorted(set(code + delta for item in allowed for code in item if code is not None for delta in (-1, 0, 1)))
+        base = next((c for c in cells if c.strip()), "a")
+        for code in draw(st.lists(st.sampled_from(edges), max_size=6)):
+            if code > 32 and chr(code).isprintable():
+                cells.append(base[:-1] + chr(code))
     return {"fmt": fmt, "field": field, "cells": cells}
 
 
